@@ -549,7 +549,69 @@ def model_ds_observation(model, keys):
     }
 
 
+class EqualitySpec:
+    """Histories of == between two live groups holding the same quantities in different units, interleaved with in-place
+    changes of their members: the verdict must always follow the *current* contents."""
+
+    def __init__(self, params):
+        self.ops = [["eq", "G", "H"], ["eq", "H", "G"], ["imul", "H", "a", 2.0], ["itruediv", "H", "a", 2.0], ["iadd", "G", "a", 1.0],
+                    ["isub", "G", "a", 1.0], ["poke", "H", "a", 0, 150.0], ["poke", "H", "a", 0, 100.0], ["replace", "H", "a"],
+                    ["imul", "H", "v", 2.0], ["itruediv", "H", "v", 2.0], ["imul", "G", "v", 2.0]]
+
+    def fresh(self):
+        import osyris
+
+        A, V, DG = osyris.Array, osyris.Vector, osyris.Datagroup
+        G = DG({"a": A(np.array([1.0, 2.0, 3.0]), unit="m"), "v": V(np.array([1.0, 2.0, 4.0]), np.array([0.5, 1.0, 2.0]), unit="m")})
+        H = DG({"a": A(np.array([100.0, 200.0, 300.0]), unit="cm"), "v": V(np.array([100.0, 200.0, 400.0]), np.array([50.0, 100.0, 200.0]), unit="cm")})
+        return {"G": G, "H": H}, {}
+
+    def canon(self, impl):
+        return [[k, [[m, describe_member(v)] for m, v in g.items()]] for k, g in impl.items()]
+
+    @staticmethod
+    def content(g):
+        out = {}
+        for k, v in g.items():
+            comps = list(v._xyz.values()) if hasattr(v, "_xyz") else [v]
+            scale = {"meter": 100.0, "centimeter": 1.0}[str(comps[0].unit)]
+            out[k] = [np.asarray(c._array, dtype=float) * scale for c in comps]
+        return out
+
+    def step(self, impl, model, op):
+        import osyris
+
+        problems = []
+        name = op[0]
+        if name == "eq":
+            x, y = impl[op[1]], impl[op[2]]
+            cx, cy = self.content(x), self.content(y)
+            want = all(np.allclose(a, b, rtol=1e-12, atol=0) for k in cx for a, b in zip(cx[k], cy[k]))
+            try:
+                got = bool(x == y)
+            except Exception as e:
+                return ["raised"], [(f"C20:eq-raised-after-history:{type(e).__name__}", {})]
+            if got != want:
+                problems.append((f"C20:eq-{'true-for-unequal' if got else 'false-for-equal'}-contents-after-in-place-changes", {"got": got, "expected": want}))
+            return [got], problems
+        g = impl[op[1]]
+        m = g[op[2]]
+        if name in ("imul", "itruediv", "iadd", "isub"):
+            q = op[3] if name in ("imul", "itruediv") else osyris.Array(op[3], unit=m.unit)
+            m = {"imul": lambda a, b: a.__imul__(b), "itruediv": lambda a, b: a.__itruediv__(b), "iadd": lambda a, b: a.__iadd__(b),
+                 "isub": lambda a, b: a.__isub__(b)}[name](m, q)
+            if hasattr(m, "_xyz"):
+                g[op[2]] = m  # `g[k] *= q` stores the result back, as the operator statement would
+        elif name == "poke":
+            m.values[op[3]] = op[4]
+        elif name == "replace":
+            g[op[2]] = osyris.Array(np.asarray(m._array).copy() * 1.0, unit=m.unit)
+        return [name], problems
+
+
 def make_spec(name, params):
+    if name == "equality":
+        return EqualitySpec(params)
     if name == "datagroup":
         return DatagroupSpec(params)
     if name == "dataset":
@@ -730,11 +792,13 @@ def run(ctx):
     pds = {"keys": ["a", "b"]}
     cov2, acc2 = history.explore(ctx.pool, MOD, "dataset", pds, depth, und)
     acc3 = Acc.merged(ctx.pool.shards(MOD, "eq_work", ctx.base()))
-    acc = Acc.merged([acc1, acc2, acc3])
+    cov4, acc4 = history.explore(ctx.pool, MOD, "equality", {}, 5 if ctx.thorough else 4, 3)
+    acc = Acc.merged([acc1, acc2, acc3, acc4])
     cov = {
-        "states": cov1["states"] + cov2["states"],
-        "transitions": cov1["transitions"] + cov2["transitions"],
-        "traces_validated_against_impl": cov1["traces_validated_against_impl"] + cov2["traces_validated_against_impl"],
+        "states": cov1["states"] + cov2["states"] + cov4["states"],
+        "transitions": cov1["transitions"] + cov2["transitions"] + cov4["transitions"],
+        "traces_validated_against_impl": cov1["traces_validated_against_impl"] + cov2["traces_validated_against_impl"] + cov4["transitions"],
+        "equality_histories": {k: v for k, v in cov4.items() if k != "samples"},
         "samples": [{"datagroup_history": cov1["samples"][-1]}, {"dataset_history": cov2["samples"][-1]}] + acc3.samples[:2],
         "datagroup": {k: v for k, v in cov1.items() if k != "samples"},
         "dataset": {k: v for k, v in cov2.items() if k != "samples"},
